@@ -46,8 +46,9 @@ claim("C12", module="props.c12", category="proof",
            "SearchData, Solution, Evolvent, OptimizationTask, Method, Process, SearchDataItem, CharacteristicsQueue, Trial, "
            "Point, FunctionValue) with CPython default-argument semantics modelled (a mutable default is one shared "
            "pre-existing object), frames 'constructor writes only its own object', plus syntactic obligations that the "
-           "footprint classes hold no class-level/module-level mutable state. Non-interference of interleaved solvers is "
-           "then the frame rule.",
+           "footprint classes hold no class-level/module-level mutable state, that no solver code writes into the user's "
+           "Problem / SolverParameters objects (shared between solvers) and that no function changes process-wide interpreter / "
+           "numpy state outside a restoring `with` block. Non-interference of interleaved solvers is then the frame rule.",
       note=PROOF_NOTE + "; per-method frames of Method/Process/SearchData are discharged under the checks of C06/C19/C02; "
            "DEPQ constructor contract assumed",
       technique="contract-based deductive verification: freshness/ownership post-conditions and frame conditions, z3",
@@ -56,9 +57,11 @@ claim("C20", module="props.c20", category="proof",
       text="Solver.__init__ is proved (against the contracts of the constructors it calls) to store "
            "parameters.evolventDensity, the problem dimension and copies of the bounds in the Evolvent that it hands to "
            "Method and Process; GetImage's proved post-condition gives trial coordinates lower+(k+1/2)(upper-lower)/2^m with "
-           "m that stored density (N in 2..5, m and box symbolic); a frame obligation shows nothing reassigns the density.",
-      note=PROOF_NOTE + "; 'every trial point is GetImage(x)' is the post-condition of Method.FirstIteration/"
-           "CalculateIterationPoint verified under C02/C06",
+           "m that stored density (N in 2..5, m and box symbolic); a frame obligation shows nothing reassigns the density. "
+           "'Every trial point is GetImage(x) and the objective is evaluated exactly there' is re-proved here on the real "
+           "FirstIteration / CalculateIterationPoint / CalculateFunctionals / OptimizationTask.Calculate / DoGlobalIteration "
+           "(only these clauses are in C20's scope).",
+      note=PROOF_NOTE,
       technique="contract-based deductive verification: constructor post-conditions chained with the evolvent contracts, z3",
       design_ref="DESIGN.md 5.C20")
 
@@ -108,7 +111,8 @@ claim("C14", module="props.c14", category="proof",
       text="Structural contract of the GKLS generator evaluated on the state the real generator builds for each of the 400 "
            "functions (exhaustive): minimisers in the box, non-overlapping balls, class distance/radius, values, uniqueness of "
            "the global minimiser, exact prescribed value of the real Calculate at all 4,000 minimisers, bit-identical "
-           "regeneration; the generator pinned by Knuth's published check value and the repository's recorded value; "
+           "regeneration; the generator pinned by Knuth's published check value, the repository's recorded value and the "
+           "30-bit seed space of the published seeding routine; "
            "continuity as a polynomial identity; no nondeterministic source in the construction path (syntactic obligations). "
            "The every-point clauses (paraboloid outside the balls, continuity of the real code) rest on a bounded sample link.",
       note="finite-family enumeration is complete; interval/sympy trusted; the every-point clauses are linked to the real code by "
@@ -121,8 +125,9 @@ claim("C15", module="props.c15", category="proof",
       text="Frame (write-effect) obligations generated from the AST of every shipped Calculate and of everything it calls "
            "(GKLSFunction.Calculate/CalculateDFunction/GKLS_norm, GrishaginFunction.Calculate, ...): each store must target a "
            "local, the supplied holder's value, or an object allocated in the same call; no write to self, class attributes, "
-           "module tables or the point; the supplied holder is returned; no nondeterministic primitive on the path. History "
-           "and cross-instance independence are the frame-rule consequence.",
+           "module tables or the point; the holder's previous value is never read; the supplied holder is returned; no "
+           "nondeterministic primitive on the path; no function of the benchmark modules (constructors and generators included) "
+           "changes process-wide interpreter / numpy state. History and cross-instance independence are the frame-rule consequence.",
       note="decided by an own conservative syntactic effect analysis (not by the SMT back end): a flagged store is a failed "
            "obligation; native history oracle attaches a failing input",
       technique="contract-based: frame conditions (modifies = {functionValue.value} + fresh locals) checked on every path by a "
@@ -131,7 +136,11 @@ claim("C15", module="props.c15", category="proof",
 
 METHOD_NOTE = ("trusted base: pyvc (symbolic executor, own bounded quantifier instantiation, relevance slicing), z3 5.1 CLI; floats as "
                "reals; INTERFACE contracts of the user's objective and listeners; ASSUMED contracts of depq.DEPQ, copy.deepcopy, "
-               "and the abstract of Evolvent.GetImage proved under C07/C17; per-run details in the evidence file")
+               "and the abstract of Evolvent.GetImage proved under C07/C17; every check of this group verifies the whole method layer (Method.*, "
+               "OptimizationTask.Calculate, Process.*, the Solver API layer and the base case Solver.__init__ + constructors); clauses that "
+               "only another property states are that property's business (scope filter, DESIGN 12); quick tier: a verification "
+               "condition whose exact SMT text is recorded as proved is not re-solved (thorough tier solves everything); per-run "
+               "details in the evidence file")
 claim("C02", module="props.c02", category="proof",
       text="Contracts proved on the real Method code: CalculateGlobalR (the three characteristic formulas), CalculateM (M = running "
            "maximum of the slopes, floored at 1), CalculateNextPointCoordinate (the point rule; strictly inside the interval, both "
@@ -178,9 +187,13 @@ claim("C13", module="props.c13", category="proof",
            "one OnEndIteration entry per listener whose argument holds, in order, exactly the items evaluated by this call; Solve "
            "appends one OnMethodStop entry per listener with the returned solution. Arity obligations for every listener call "
            "site against the base class and every shipped override; console final report: data-flow contract of "
-           "printFinalResult + label/parameter obligations of printResult. Non-interference through the callbacks' interface "
-           "contract and the frames.",
-      note=METHOD_NOTE + "; bodies of matplotlib/sklearn painters not verified", technique="contract-based deductive verification: "
+           "printFinalResult + label/parameter obligations of printResult. The public entry points Solver.Solve / "
+           "DoGlobalIteration / DoLocalRefinement / GetResults are proved to be exactly the Process operations. Non-interference: "
+           "the callbacks' interface contract and the frames for user listeners; for the shipped console / painting listeners a "
+           "write-effect analysis of every function of iOpt/output_system (nothing handed to a callback, or derived from it, is "
+           "written).",
+      note=METHOD_NOTE + "; what matplotlib/sklearn do internally is not verified; aliasing through a listener's own fields is "
+           "not tracked by the write-effect analysis", technique="contract-based deductive verification: "
       "ghost trace post-conditions, loop invariants over the listener list, arity and data-flow obligations, z3",
       design_ref="DESIGN.md 5.C13")
 claim("C11", module="props.c11", category="proof",
@@ -194,7 +207,8 @@ claim("C05", module="props.c05", category="proof",
       text="Global phase: CalculateFunctionals requires its point to lie in the box; discharged at every call site from the "
            "post-condition of GetImage (abstract of C07). Refinement: DoLocalRefinement verified against the ASSUMED SciPy contract "
            "whose precondition is that the problem's bounds are passed and the start point is the optimum; returned point in the "
-           "box, reported value = objective re-evaluated there, not worse than the best global trial.",
+           "box, reported value = objective re-evaluated there, not worse than the best global trial. The premise 'every image lies "
+           "in the box' is re-proved in this check on the real evolvent code (N = 1..5, symbolic density and box).",
       note=METHOD_NOTE + "; SciPy Nelder-Mead itself is a dependency: assumed contract + bounded native runs (not counted)",
       technique="contract-based deductive verification: pre/post-conditions chained through the assumed dependency contract, z3",
       design_ref="DESIGN.md 5.C05")
